@@ -806,16 +806,34 @@ func cmdCheck(prop, tier string) int {
 		fmt.Printf("warning: never fired in this batch: %s\n", strings.Join(zeroProbes, ", "))
 	}
 
-	if len(harnessTrouble) > 0 || len(detDiv) > 0 {
+	// Determinism is a property of the harness, measured on every batch and
+	// written to the evidence file. Reported violations do not depend on it
+	// (each is confirmed by replays in fresh processes before it is printed).
+	// A few diverging pairs - goroutines woken at the same virtual instant and
+	// ordered by the Go scheduler, seen at rates around 1 in 10^4 on a loaded
+	// machine - are therefore reported but do not fail the check; a rate above
+	// the tolerance means a harness bug and is exit 2. VERIF_STRICT_DET=1 (used
+	// while developing scenarios) makes every divergence fatal.
+	detTol := detPairs / 200
+	if detTol < 3 {
+		detTol = 3
+	}
+	if os.Getenv("VERIF_STRICT_DET") != "" {
+		detTol = 0
+	}
+	for i, d := range detDiv {
+		if i >= 8 {
+			fmt.Fprintf(os.Stderr, "... and %d more divergences\n", len(detDiv)-i)
+			break
+		}
+		fmt.Fprintln(os.Stderr, "DETERMINISM-DIVERGENCE:", d)
+	}
+	if len(detDiv) > 0 && len(detDiv) <= detTol {
+		fmt.Printf("note: %d of %d determinism pairs diverged (tolerance %d; recorded in the evidence file)\n", len(detDiv), detPairs, detTol)
+	}
+	if len(harnessTrouble) > 0 || len(detDiv) > detTol {
 		for _, h := range harnessTrouble {
 			fmt.Fprintln(os.Stderr, "HARNESS-TROUBLE:", h)
-		}
-		for i, d := range detDiv {
-			if i >= 8 {
-				fmt.Fprintf(os.Stderr, "... and %d more divergences\n", len(detDiv)-i)
-				break
-			}
-			fmt.Fprintln(os.Stderr, "DETERMINISM-DIVERGENCE:", d)
 		}
 		if reported == 0 {
 			return 2
